@@ -86,6 +86,7 @@ def run(tier, rep):
     e2 = dict(env)
     e2.pop('BXDECAY0_RESOURCE_DIR', None)
     e2['BXDECAY0_RESOURCE_DIR'] = os.path.join(vlib.REPO, 'resources')
+    e2['C15_GA_SEED'] = gseed
     rr = subprocess.run([exe, lst, out], env=e2, stdout=subprocess.PIPE, stderr=subprocess.PIPE, text=True, timeout=3300)
     if rr.returncode != 0:
         shutil.rmtree(work, ignore_errors=True)
@@ -131,7 +132,7 @@ def run(tier, rep):
                 'loaded in a forked child of the ASan+UBSan+_GLIBCXX_ASSERTIONS build (10 s limit, 512 MB single-allocation cap): outcome must be an exception or a load that '
                 'satisfies the loader\'s validity predicate; non-trivial = mutants that made the loader raise an error' % (len(mutate.ALPHABET), '; pairs of replacements on the event header and the c.d.f. table' if pairs else ''),
     })
-    rep.assumptions += ['validity predicates: event::is_valid() and at most 64 events; gA: a 6x6 grid of shots yields finite non-negative energies; lists: non-empty names, consistent mode records']
+    rep.assumptions += ['validity predicates: event::is_valid() and at most 64 events; gA: a 6x6 grid of shots yields finite non-negative energies; lists: non-empty names, consistent mode records, every stored identifier inside its enumeration; a gA object whose load was refused must then load the unmutated dataset and sample exactly like a new object']
 
 
 def replay(path):
